@@ -197,6 +197,10 @@ Fixpoint burst (n : nat) (r0 : rid) : list event :=
      6 writes more than a pipe buffer to stdout and stderr and exits 0,
      7 is fed more than a pipe buffer on stdin, never reads it, exits 0,
      8 kills itself (SIGKILL) *)
+(* 3, 9..12 = `AsyncCommand::spawn()` of something that cannot be started: 3 no such file (ENOENT), 9 not executable
+   (EACCES), 10 a directory, 11 a script whose interpreter does not exist, 12 an executable somebody holds open for
+   writing (ETXTBSY).  In all of them `spawn()` returns the error in the poll in which it got the token. *)
+Definition kind_spawn_fails (k : N) : bool := (k =? 3) || ((9 <=? k) && (k <=? 12)).
 Definition kind_ok (k : N) : bool := (k =? 1) || (k =? 4) || (k =? 6) || (k =? 7).
 Definition kind_leaves_pipes_open (k : N) : bool := (k =? 4) || (k =? 5).
 Inductive sop :=
@@ -233,7 +237,7 @@ Fixpoint run_keep (s : st) (es : list event) : st * list event :=
 Definition poll_events (ks : list (rid * N)) (r : rid) : list event :=
   let k := kind_of r ks in
   if k =? 0 then [Receive r]
-  else if k =? 3 then [Receive r; SpawnFail r]
+  else if kind_spawn_fails k then [Receive r; SpawnFail r]
   else [Receive r; Start r].
 
 (* some events (refused ones are skipped), then the helper runs to completion *)
